@@ -156,6 +156,10 @@ def texts(tier: str) -> list:
         out.append(("lines:" + ",".join(map(str, seq)), t))
         if t.endswith("\n") and len(seq) <= 2 or (len(seq) == 3 and tier != "quick"):
             out.append(("lines:" + ",".join(map(str, seq)) + ":nonl", t[:-1]))
+        # line-ending variants: CRLF everywhere, and bare CR (both lexer bases special-case \r next to \n)
+        out.append(("lines:" + ",".join(map(str, seq)) + ":crlf", t.replace("\n", "\r\n")))
+        if len(seq) <= 2 or tier != "quick":
+            out.append(("lines:" + ",".join(map(str, seq)) + ":cr", t.replace("\n", "\r")))
     return out
 
 
